@@ -789,10 +789,13 @@ def d_gen_case(rng, big=False):
     nconc = rng.choice([1, 2, 2, 3])
     nlang = rng.choice([2, 3, 4] + ([5, 6] if big else []))
     shared_pool = rng.random() < 0.4          # ids reused across concepts
+    digits = rng.random() < 0.25              # ids whose decimal spellings concatenate ambiguously
     rows = []
     for c in range(nconc):
         base = 0 if shared_pool else 10 * c
         pool = [base + i for i in range(1, rng.choice([2, 3, 4, 6]))]
+        if digits:
+            pool = rng.sample([1, 2, 11, 12, 21, 22, 111, 112, 121, 211], rng.choice([3, 4, 6]))
         for l in range(nlang):
             r = rng.random()
             nw = 0 if r < 0.15 else (2 if r > 0.85 else 1)
@@ -914,6 +917,13 @@ def d_classify(case, res):
             tags.append("irregular_blanks_in_id_cell")
     if any(not t for _, _, t in case["rows"]):
         tags.append("empty_id_list")
+    joined = {}
+    for _, _, t in case["rows"]:
+        joined.setdefault("".join(map(str, t)), set()).add(tuple(t))
+    if any(len(v) > 1 for v in joined.values()):
+        tags.append("different_sequences_same_digit_string")
+    if any(x <= len(case["rows"]) for _, _, t in case["rows"] for x in t):
+        tags.append("partial_id_equal_to_a_row_id")
     ids = {}
     for _, co, t in case["rows"]:
         for x in t:
